@@ -311,7 +311,7 @@ def gen_op(rng: Rng, cfg, kind: str) -> dict:
             op['mutate'] = {'which': s(), 'coeff': rng.pick(COEFFS + [0.0, 0.0, 0.0]), 'oid': rng.randrange(0, cfg['K'] + 1), 'pos': s(), 'what': rng.pick(['coeff', 'coeff', 'oid'])}
         return op
     if kind == 'from_optrees':
-        return {'op': 'from_optrees', 'trees': gen_tree_list(rng, cfg)}
+        return {'op': 'from_optrees', 'trees': gen_tree_list(rng, cfg), 'share': rng.chance(0.3), 'share_leaf': rng.chance(0.4), 'share_sel': rng.randrange(0, 4)}
     if kind == 'from_automaton':
         return {'op': 'from_automaton', 'autop': gen_automaton(rng, cfg)}
     if kind == 'random_layered':
